@@ -94,8 +94,13 @@ pub fn circuit(r: &mut Rng, max_inputs: usize, max_ops: usize) -> PG {
 
 /// many operations ready at once (17-48 constants), then consumers at a second and third depth
 pub fn wide_circuit(r: &mut Rng) -> PG {
-    use GateKind::*;
     let m = r.range(17, 48);
+    wide_circuit_of(r, m)
+}
+
+/// the same shape with `m` operations ready at once
+pub fn wide_circuit_of(r: &mut Rng, m: usize) -> PG {
+    use GateKind::*;
     let mut w: Vec<u32> = vec![0; m];
     let mut e: Vec<PEdge<Gate>> = (0..m).map(|k| PEdge { l: g(Const, k as u32, 1), s: vec![], t: vec![k] }).collect();
     let mut id = m as u32;
@@ -318,6 +323,7 @@ impl Monitor for C16 {
             ("api:eval(renumbered)", 200),
             ("api:eval<String>", 200),
             ("class:more_than_16_operations_ready_at_once", 100),
+            ("class:more_than_512_operations_ready_at_once", 20),
             ("class:chain_of_several_hundred_operations", 20),
             ("class:long_chain_closed_into_a_cycle", 10),
             ("outcome:Some", 500),
@@ -330,6 +336,13 @@ impl Monitor for C16 {
             let (class, p) = &c[idx as usize];
             ctx.class(class);
             self.judge(ctx, class, p, r);
+            return;
+        }
+        if r.chance(1, 3000) {
+            ctx.class("more_than_512_operations_ready_at_once");
+            let m = r.range(513, 1100);
+            let p = wide_circuit_of(r, m);
+            self.judge(ctx, "very_wide", &p, r);
             return;
         }
         if r.chance(1, 60) {
